@@ -161,6 +161,11 @@ def run_case(case, rec):
         c = node.cand
         want_neb = set((l, w) for (l, w, _p) in wo if l == c and w in remaining)
         want_irv = set((cc, frozenset(E)) for (cc, E, _p) in el if cc == c and set(E) == remaining)
+        if any(not (0 <= i < len(wo)) for i, _p in node.NEBTagList) or any(not (0 <= i < len(el)) for i, _p in node.IRVTagList):
+            rec.violation("c20.tags", "tag_refers_to_no_assertion_of_the_given_set",
+                          {"path_root_to_node": path, "neb_tags": list(node.NEBTagList), "irv_tags": list(node.IRVTagList),
+                           "n_neb": len(wo), "n_irv": len(el)})
+            return
         got_neb = set((wo[i][0], wo[i][1]) for i, _p in node.NEBTagList)
         got_irv = set((el[i][0], frozenset(el[i][1])) for i, _p in node.IRVTagList)
         rec.count("pruned_nodes_tag_checked")
